@@ -12,10 +12,12 @@ import (
 	"errors"
 	"fmt"
 	"io"
+	"net"
 	"os"
 	"runtime"
 	"strings"
 	"sync"
+	"syscall"
 	"testing"
 	"time"
 
@@ -78,10 +80,10 @@ type tracker struct {
 	bound   time.Duration
 	overdue []string
 	mu      sync.Mutex
-	next  int
-	open  map[int]*call
-	count map[string]int
-	slow  time.Duration
+	next    int
+	open    map[int]*call
+	count   map[string]int
+	slow    time.Duration
 }
 
 func (t *tracker) begin(actor, op string) *call {
@@ -127,10 +129,17 @@ type netPlan struct {
 	Class  string        `json:"class"`
 	Loss   float64       `json:"loss"`
 	DeadAt time.Duration `json:"dead_at"` // <0: never
+	// write-fails: from FailAt on, WriteMsg of one or both ends returns an
+	// error (a refused destination) while everything the peer sends still arrives
+	FailAt   time.Duration `json:"fail_at,omitempty"`
+	FailSide int           `json:"fail_side,omitempty"` // 0 A, 1 B, 2 both
 }
 
 func genNet(rng *vh.Rand) netPlan {
-	switch rng.Intn(8) {
+	switch rng.Intn(9) {
+	case 8:
+		return netPlan{Class: "write-fails", DeadAt: -1, Loss: float64(rng.Pick(0, 0, 10)) / 100,
+			FailAt: time.Duration(rng.Pick(0, 1, 5, 20, 100, 300)) * time.Millisecond, FailSide: rng.Intn(3)}
 	case 0, 1:
 		return netPlan{Class: "healthy", DeadAt: -1}
 	case 2:
@@ -178,14 +187,14 @@ type opSpec struct {
 }
 
 type program struct {
-	Net       netPlan    `json:"net"`
-	Tubes     []bool     `json:"tubes_reliable"`
-	EndProgs  [][]opSpec `json:"end_programs"` // index 2*tube + side (0: creator A, 1: acceptor B)
-	StopAfter [2]int     `json:"stop_after_ms"`
-	DoubleStop bool      `json:"double_stop"`
-	KeepAlive  bool      `json:"keepalive_traffic"` // a background tube keeps the muxers from idling out
-	CloseDuringInit bool `json:"close_during_init"`
-	Strength  int        `json:"perturb_strength"`
+	Net             netPlan    `json:"net"`
+	Tubes           []bool     `json:"tubes_reliable"`
+	EndProgs        [][]opSpec `json:"end_programs"` // index 2*tube + side (0: creator A, 1: acceptor B)
+	StopAfter       [2]int     `json:"stop_after_ms"`
+	DoubleStop      bool       `json:"double_stop"`
+	KeepAlive       bool       `json:"keepalive_traffic"` // a background tube keeps the muxers from idling out
+	CloseDuringInit bool       `json:"close_during_init"`
+	Strength        int        `json:"perturb_strength"`
 }
 
 // genEarlyClose: directed family - the acceptor closes the moment Accept hands
@@ -306,8 +315,8 @@ type endState struct {
 	roff     int64
 	peer     *endState
 	closeAt  time.Time // when the local Close returned
-	closeRet bool // local Close has returned
-	wfcRet   bool // WaitForClose has returned
+	closeRet bool      // local Close has returned
+	wfcRet   bool      // WaitForClose has returned
 	mu       sync.Mutex
 }
 
@@ -443,6 +452,17 @@ func runProgram(r *vh.Runner, c *vh.Case, i int, prog program, realTime bool) {
 		}
 	}
 	nw.SetPolicy(pol)
+	if prog.Net.Class == "write-fails" {
+		werr := &net.OpError{Op: "write", Net: "udp", Err: syscall.ECONNREFUSED}
+		time.AfterFunc(prog.Net.FailAt, func() {
+			if prog.Net.FailSide != 1 {
+				nw.A.FailWrites(werr)
+			}
+			if prog.Net.FailSide != 0 {
+				nw.B.FailWrites(werr)
+			}
+		})
+	}
 
 	violate := func(sig string, d map[string]any) {
 		d["program"] = prog
@@ -563,7 +583,7 @@ func runProgram(r *vh.Runner, c *vh.Case, i int, prog program, realTime bool) {
 						// the watcher decides: it took its snapshot iff the call was still
 						// open when the bound (from the later Close) had expired
 						if d := time.Since(from); snapMine != "" && !realTime {
-							violate("C16:waitforclose-later-than-bound-after-both-ends-closed:"+kind(e)+":"+snapMine+":peer-"+snapPeer+":"+prog.Net.Class, map[string]any{"state_at_bound": snapMine, "peer_state_at_bound": snapPeer,"end": e.name, "took_after_both_closed": d.String(), "bound": bound.String(), "keepalive": prog.KeepAlive,
+							violate("C16:waitforclose-later-than-bound-after-both-ends-closed:"+kind(e)+":"+snapMine+":peer-"+snapPeer+":"+prog.Net.Class, map[string]any{"state_at_bound": snapMine, "peer_state_at_bound": snapPeer, "end": e.name, "took_after_both_closed": d.String(), "bound": bound.String(), "keepalive": prog.KeepAlive,
 								"my_close_at": myAt.Sub(start).String(), "peer_close_at": theirAt.Sub(start).String(), "wait_started_at": cl.start.Sub(start).String(), "returned_at": time.Since(start).String(),
 								"this_end": info(e.tube), "peer_end": info(e.peer.tube)})
 							return
